@@ -321,6 +321,12 @@ def all_items(tier, seed):
         for rs in itertools.product(RULES, repeat=3) if (tier == "thorough" or a[0] != b[0]) else [("nonzero", "evenodd", "nonzero")]:
             for op in ("union", "intersection", "difference"):
                 yield ("pathops", op, [a[2], b[2], c[2]], list(rs), False)
+    if tier == "quick":
+        ql = [shift(LIB[n_], o) for n_, o in zip(sub, [(0, 0), (17, 11), (-6, 23), (9, -7), (3, 3)])]
+        for combo in ((0, 1, 2, 3), (3, 2, 1, 0), (1, 3, 0, 4), (0, 4, 2, 1, 3)):
+            for op in ("union", "intersection", "difference"):
+                yield ("pathops", op, [ql[i] for i in combo], ["nonzero", "evenodd", "nonzero", "nonzero", "evenodd"][: len(combo)], False)
+                yield ("shapes", op, [ql[i] for i in combo], ["nonzero"] * len(combo), False)
     if tier == "thorough":
         quad_lib = [shift(LIB[n], o) for n, o in zip(sub, [(0, 0), (17, 11), (-6, 23), (9, -7), (3, 3)])]
         for combo in itertools.permutations(range(5), 4):
